@@ -19,14 +19,14 @@ LANDMARK_OK = {("SE2", "R2"), ("SE3", "R3"), ("R2", "R2"), ("R3", "R3")}
 
 META = {
     "rule": "full product (edge kind) x (vertex count 1..3) x (pose type of each endpoint) x (measurement type in R2,R3,SE2,SE3,ndarray,None) x "
-    "(offset type, landmark only) x (information shape n x n, n x (n+1), n=1..7) x (id present/absent) x (vertex list order: named, reversed, distractor first); "
+    "(offset type, landmark only) x (information shape n x n, n x (n+1), n=1..7) x (id present/absent) x (vertex list order: named, reversed, distractor first) x (edge object fresh / already bound to other vertex objects with the same ids); "
     "oracle = truth table written from the documentation; non-trivial = the configuration differs from a consistent one in exactly one factor, or is consistent",
     "assumptions": [
         "python is not run with -O (the validity check is an assert)",
         "a landmark edge whose offset is None is not judged for accept/reject (documentation allows None in the signature but defines no meaning)",
         "truth table vf/checks/c18.py:expected_valid is trusted",
     ],
-    "required_classes": ["accepted", "rejected", "order:named", "order:reversed", "order:distractor", "id_absent", "landmark", "odometry"],
+    "required_classes": ["prebound_stale", "accepted", "rejected", "order:named", "order:reversed", "order:distractor", "id_absent", "landmark", "odometry"],
     "bounds": {"quick": "the complete product named in the property", "thorough": "the same product + id alphabets (negative, sparse, huge) + custom edges with their own is_valid + all 2-edge graphs over consistent/inconsistent edge pairs"},
 }
 
@@ -87,7 +87,8 @@ def _cases_prod(edge, pt):
             for sh in SHAPES:
                 for absent in (False, True):
                     for order in ORDERS:
-                        yield {"t": "prod", "edge": edge, "ptypes": pt, "meas": meas, "offset": off, "shape": list(sh), "absent": absent, "order": order, "ids": None}
+                        for pre in (None, "stale"):
+                            yield {"t": "prod", "edge": edge, "ptypes": pt, "meas": meas, "offset": off, "shape": list(sh), "absent": absent, "order": order, "ids": None, "prebound": pre}
 
 
 def _near_valid(case):
@@ -147,6 +148,8 @@ def run_chunk(chunk, tier, seed):
             acc.cls(case["edge"])
             if case["absent"]:
                 acc.cls("id_absent")
+            if case.get("prebound"):
+                acc.cls("prebound_stale")
         if msgs:
             acc.violation(case, msgs)
         if outcome == "accepted":
@@ -177,6 +180,10 @@ def _build(case):
     else:
         off = _mk_meas(case["offset"], pt[0])
         e = I.EdgeLandmark(named_ids, info, meas, offset=off)
+    if case.get("prebound") == "stale":
+        # the edge object arrives already bound to OTHER vertex objects (same ids, e.g. it was used in an earlier graph):
+        # construction must re-bind it to the vertices of THIS graph
+        e.vertices = [I.Vertex(i, I.mk_pose(pt[k], _VAL[pt[k]])) for k, i in enumerate(named_ids)]
     vl = list(verts)
     if case["order"] == "reversed":
         vl = vl[::-1]
